@@ -41,7 +41,18 @@ struct ctx {
 };
 
 #define R(...) do { if (c->render) vp_render(c->rep, __VA_ARGS__); } while (0)
+#ifdef BLOCKSTR_AS_C01
+/* the same generated histories serve C01 at buffer level: only memory oracles (ASan, leak audit) are reported */
+#define FAIL(key, ...) do { } while (0)
+#define LEAKKEY "C01/audit-blocks"
+#define EXEC_ID "C01"
+#define EXEC_VARIANT "blocks"
+#else
 #define FAIL(key, ...) do { if (!c->ret) c->ret = vp_fail(c->rep, key, __VA_ARGS__); } while (0)
+#define LEAKKEY "C03/leak"
+#define EXEC_ID "C03"
+#define EXEC_VARIANT "blockstr"
+#endif
 
 static uint8_t pat_byte(struct ctx *c) { c->pat = c->pat * 1103515245u + 12345u; uint8_t b = c->pat >> 16; return (b & 0x30) ? b : (b & 3); /* many 0..3 for find */ }
 
@@ -594,7 +605,7 @@ static int run(const uint8_t *tp_, size_t len, struct vp_report *rep, unsigned f
     }
     for (int i = 0; i < MAXH; i++) release(c, i);
     const char *leak = fix_mem_clean(&c->fm);
-    if (leak && !c->ret) c->ret = vp_fail(rep, "C03/leak", "%s", leak);
+    if (leak && !c->ret) c->ret = vp_fail(rep, LEAKKEY, "%s", leak);
 
     rep->case_hash = c->hash;
     if (c->multiseg) rep->classes |= 1u << CL_MULTISEG;
@@ -611,4 +622,4 @@ static int run(const uint8_t *tp_, size_t len, struct vp_report *rep, unsigned f
     return c->ret;
 }
 
-const struct vp_executor vp_executor = { "C03", "blockstr", 220, class_names, run, NULL };
+const struct vp_executor vp_executor = { EXEC_ID, EXEC_VARIANT, 220, class_names, run, NULL };
